@@ -1,5 +1,5 @@
-import Librfn.Gen.Bitops
-import Librfn.Gen.Constexpr
+import Librfn.Gen.BitopsSeq
+import Librfn.Gen.ConstexprSeq
 import Std.Tactic.BVDecide
 /-!
 # C16 — bit-counting helpers equal their mathematical definitions on all inputs
@@ -14,7 +14,15 @@ Specifications (independent of the code):
   specification does not rest on reading core's definition.
 -/
 namespace Librfn.C16
-open Librfn.Gen.Bitops Librfn.Gen.Constexpr
+/-! The generated definitions (tools/c2lean2.py: helper functions inlined, loops unrolled 32×, constant tables as
+if-chains) return a structure; `bitcnt` … below are their values, `*_total` says that no undefined operation is executed and
+no loop needs more than the unrolling on any input. -/
+def bitcnt (x : BitVec 32) : BitVec 32 := (Librfn.Gen.BitopsSeq.bitcnt x).ret
+def clz (x : BitVec 32) : BitVec 32 := (Librfn.Gen.BitopsSeq.clz x).ret
+def ctz (x : BitVec 32) : BitVec 32 := (Librfn.Gen.BitopsSeq.ctz x).ret
+def ilog2 (x : BitVec 32) : BitVec 32 := (Librfn.Gen.BitopsSeq.ilog2 x).ret
+def w_const_pop (c : BitVec 64) : BitVec 32 := (Librfn.Gen.ConstexprSeq.w_const_pop c).ret
+def w_const_lssb (c : BitVec 64) : BitVec 32 := (Librfn.Gen.ConstexprSeq.w_const_lssb c).ret
 
 /-- number of one bits, as a natural number -/
 def popcount {w : Nat} (x : BitVec w) : Nat := (List.range w).countP (fun i => x.getLsbD i)
@@ -26,26 +34,39 @@ def popSum64 (x : BitVec 64) : BitVec 32 :=
   (List.range 64).foldl (fun acc i => acc + BitVec.setWidth 32 ((x >>> i) &&& 1#64)) 0#32
 
 theorem bitcnt_eq_popSum (x : BitVec 32) : bitcnt x = popSum32 x := by
-  unfold bitcnt popSum32; simp only [List.range, List.range.loop, List.foldl]; bv_decide (config := { timeout := 300 })
+  unfold bitcnt Librfn.Gen.BitopsSeq.bitcnt popSum32; simp only [List.range, List.range.loop, List.foldl]; bv_decide (config := { timeout := 300 })
 
 theorem clz_eq (x : BitVec 32) : clz x = x.clz := by
-  unfold clz bitcnt; bv_decide (config := { timeout := 300 })
+  unfold clz Librfn.Gen.BitopsSeq.clz; bv_decide (config := { timeout := 300 })
 
 theorem ctz_eq (x : BitVec 32) : ctz x = x.reverse.clz := by
-  unfold ctz bitcnt; bv_decide (config := { timeout := 300 })
+  unfold ctz Librfn.Gen.BitopsSeq.ctz; bv_decide (config := { timeout := 300 })
 
 /-- `ilog2` (precondition `x ≠ 0`, the C `assert`): position of the highest set bit -/
 theorem ilog2_eq (x : BitVec 32) (_h : x ≠ 0) : ilog2 x = 31#32 - x.clz := by
-  unfold ilog2; rw [clz_eq]
+  unfold ilog2 Librfn.Gen.BitopsSeq.ilog2; bv_decide (config := { timeout := 300 })
 
 theorem const_pop_eq_popSum (c : BitVec 64) : w_const_pop c = popSum64 c := by
-  unfold w_const_pop popSum64; simp only [List.range, List.range.loop, List.foldl]; bv_decide (config := { timeout := 300 })
+  unfold w_const_pop Librfn.Gen.ConstexprSeq.w_const_pop popSum64; simp only [List.range, List.range.loop, List.foldl]; bv_decide (config := { timeout := 300 })
 
 /-- `const_lssb`: index of the lowest set bit, `-1` for zero -/
 theorem const_lssb_eq (c : BitVec 64) :
     w_const_lssb c = if c = 0 then (-1 : BitVec 32) else BitVec.setWidth 32 c.reverse.clz := by
-  unfold w_const_lssb; bv_decide (config := { timeout := 300 })
+  unfold w_const_lssb Librfn.Gen.ConstexprSeq.w_const_lssb; bv_decide (config := { timeout := 300 })
 
+
+/-- no helper executes an undefined operation (a shift by ≥ 32, an index outside a table) and every loop of the
+    generated code ends within the unrolling, on every input (`ilog2`: every non-zero input, the C `assert`) -/
+theorem helpers_total (x : BitVec 32) (c : BitVec 64) :
+    (Librfn.Gen.BitopsSeq.bitcnt x).ub = false ∧ (Librfn.Gen.BitopsSeq.bitcnt x).exh = false ∧
+    (Librfn.Gen.BitopsSeq.clz x).ub = false ∧ (Librfn.Gen.BitopsSeq.clz x).exh = false ∧
+    (Librfn.Gen.BitopsSeq.ctz x).ub = false ∧ (Librfn.Gen.BitopsSeq.ctz x).exh = false ∧
+    (x ≠ 0#32 → (Librfn.Gen.BitopsSeq.ilog2 x).ub = false ∧ (Librfn.Gen.BitopsSeq.ilog2 x).exh = false) ∧
+    (Librfn.Gen.ConstexprSeq.w_const_pop c).ub = false ∧ (Librfn.Gen.ConstexprSeq.w_const_pop c).exh = false ∧
+    (Librfn.Gen.ConstexprSeq.w_const_lssb c).ub = false ∧ (Librfn.Gen.ConstexprSeq.w_const_lssb c).exh = false := by
+  unfold Librfn.Gen.BitopsSeq.bitcnt Librfn.Gen.BitopsSeq.clz Librfn.Gen.BitopsSeq.ctz Librfn.Gen.BitopsSeq.ilog2
+    Librfn.Gen.ConstexprSeq.w_const_pop Librfn.Gen.ConstexprSeq.w_const_lssb
+  bv_decide (config := { timeout := 300 })
 
 /-! ## From the bit-vector statements to the arithmetic wording of the property (kernel-only) -/
 
@@ -155,7 +176,7 @@ theorem regdump_field_extraction (reg n s : BitVec 32) (hn : 1#32 ≤ n) (hs : n
     (reg &&& ((if n = 32#32 then 0xffffffff#32 else (1#32 <<< n) - 1#32) <<< s))
         >>> (ctz ((if n = 32#32 then 0xffffffff#32 else (1#32 <<< n) - 1#32) <<< s))
       = (reg >>> s) &&& (if n = 32#32 then 0xffffffff#32 else (1#32 <<< n) - 1#32) := by
-  unfold ctz bitcnt
+  unfold ctz Librfn.Gen.BitopsSeq.ctz
   bv_decide (config := { timeout := 300 })
 
 -- non-vacuity / sanity: concrete values through the generated code
